@@ -10,8 +10,9 @@ for all vector lengths `N`, all sweep counts and both projection orders (the ord
 is `P2`).  The two constraint sets are abstract predicates `A`, `B` on parameter vectors and the projections are characterised by
 their variational inequality (`IsProj`).  `IsProj` instances proved: State equality (`isProj_state_eq`), Gate equality on the flat
 vector (`isProj_gate_eq`), the inequality projection for a complete basis over ℝ (`isProj_psd`: State, and Gate via the Choi basis);
-for Povm / MProcess (equality: C04 `povm_/mprocess_projEq_mem/_orth`; inequality: C04 `blocks_nearest_partial`) the same facts are
-proved in C04 on the shaped objects but not repackaged as `IsProj` on the flat vector.
+Povm and MProcess equality on the flat vector (`isProj_povm_eq`, `isProj_mprocess_eq`) and the block-wise inequality projection of
+POVM elements / m-process outcomes (`isProj_psd_blocks`, executed blocks = that projection: `povm_projIneq_eq_psdProjBlocks`):
+all four types, and `dyk_runMode_tapped` covers both projection orders.
 **Bridge to the executed loop:** the driver replays a run with per-sweep constants in place of the inequality projection;
 `dyk_run_congr` (a run depends on the projections only through the arguments actually passed) and `dyk_run_tapped` (constants from
 exact eigen-decompositions = the genuine projection `psdProj`) make the `IsProj` theorems statements about that executed run.
@@ -545,7 +546,92 @@ example (Peq : Vec ℝ (2 * 2) → Vec ℝ (2 * 2)) (x0 : Vec ℝ (2 * 2)) :
    fun k => ⟨_, _, (eig_contract pauliB pauli_hermB _).1, (eig_contract pauliB pauli_hermB _).2,
      (psdProj_spec pauliB pauli_orthoN pauli_hermB _).1⟩⟩
 
+variable {m : Nat}
+
+/-- C05/H1 both orders: replacing the inequality projection by per-sweep constants `c k` that coincide with a genuine projection
+`Pg` at the argument of their sweep does not change the run (`runMode`: `true` = `"eq_ineq"`, inequality second; `false`:
+inequality first). -/
+theorem dyk_runMode_tapped (eps : K) (eqIneq : Bool) (Peq Pg : Vec K N → Vec K N) (c : Nat → Vec K N)
+    (maxIter : Nat) (x0 : Vec K N)
+    (hc : ∀ k, c k = Pg (if eqIneq then arg2 (fun _ => Peq) (fun _ => Pg) x0 k else arg1 (fun _ => Pg) (fun _ => Peq) x0 k)) :
+    runMode eps eqIneq Peq (fun k _ => c k) maxIter x0 = runMode eps eqIneq Peq (fun _ => Pg) maxIter x0 := by
+  cases eqIneq
+  · simp only [runMode, Bool.false_eq_true, if_false] at hc ⊢
+    exact dyk_run_congr eps _ _ _ _ maxIter x0 (fun k => hc k) (fun k => rfl)
+  · simp only [runMode, if_true] at hc ⊢
+    exact dyk_run_congr eps _ _ _ _ maxIter x0 (fun k => rfl) (fun k => hc k)
+
+/-- C05/H1 `IsProj` for the POVM / m-process inequality projection on the flat vector (product of PSD cones). -/
+theorem isProj_psd_blocks (B : Vector (Mat ℂ d d) (d * d)) (hB : OrthoN (basisM B)) (hH : HermB B) (m : Nat) :
+    IsProj (fun v : Vec ℝ (m * (d * d)) => ∀ k : Fin m, (matOfVec B (unflatten v)[k]).toM.PosSemidef)
+      (psdProjBlocks B hB hH m) := by
+  intro u
+  have e : unflatten (psdProjBlocks B hB hH m u) = (Vector.ofFn fun k : Fin m => psdProj B hB hH (unflatten u)[k]) := by
+    unfold psdProjBlocks; rw [unflatten_flatten]
+  refine ⟨?_, fun z hz => ?_⟩
+  · show ∀ k : Fin m, (matOfVec B (unflatten (psdProjBlocks B hB hH m u))[k]).toM.PosSemidef
+    intro k; rw [e]; simpa using (isProj_psd B hB hH (unflatten u)[k]).1
+  · rw [ip1_flat, unflatten_sub, unflatten_sub, e, ip2_rows]
+    apply Finset.sum_nonpos; intro k _
+    have := (isProj_psd B hB hH (unflatten u)[k]).2 (unflatten z)[k] (hz k)
+    simpa [Mat.sub, Vec.sub, Mat.get, Vec.get, Mat.ofFn, Vec.ofFn] using this
+
+/-- the executed block projection with exact eigh results IS that projection -/
+theorem povm_projIneq_eq_psdProjBlocks (B : Vector (Mat ℂ d d) (d * d)) (hB : OrthoN (basisM B)) (hH : HermB B)
+    (v : Vec ℝ (m * (d * d))) (eig : Vector (Vec ℝ d × Mat ℂ d d) m)
+    (hU : ∀ k : Fin m, eig[k].2.toMᴴ * eig[k].2.toM = 1)
+    (hA : ∀ k : Fin m, matOfVec B (unflatten v)[k] = rebuild eig[k].2 eig[k].1)
+    (C : Mat ℝ m (d * d)) (hC : Povm.projIneq B (0 : ℝ) eig = .ok C) :
+    flatten C = psdProjBlocks B hB hH m v := by
+  unfold psdProjBlocks
+  congr 1
+  apply Vector.ext; intro i hi
+  have hk := povm_projIneq_blocks B 0 eig C hC ⟨i, hi⟩
+  have := projIneqCore_eq_psdProj B hB hH (unflatten v)[(⟨i, hi⟩ : Fin m)] _ _ (hU ⟨i, hi⟩) (hA ⟨i, hi⟩) _ hk
+  simpa using this
+
 end psd
+
+/-- tie to the source, loop frame: the start state `(x, p, q)` of the modelled run is the initialisation translated from the source
+(`x = input`, `p = q = zero object`), the returned point is the variable the source returns (`x_next` of the last sweep), and the
+model's warning flag is the source's condition `k == max_iteration - 1` evaluated at the final `k`. -/
+theorem gen_loop_frame (eps : K) (P1 P2 : Nat → Vec K N → Vec K N) (maxIter : Nat) (x0 : Vec K N)
+    (o : Out K N) (h : run eps P1 P2 maxIter x0 = some o) :
+    (iterSY P1 P2 x0 0).1 = ⟨(QGen.C05.init x0).1, (QGen.C05.init x0).2.1, (QGen.C05.init x0).2.2⟩ ∧
+    o.x = QGen.C05.returned (iterSY P1 P2 x0 (o.k + 1)).2 (iterSY P1 P2 x0 (o.k + 1)).1.p
+            (iterSY P1 P2 x0 (o.k + 1)).1.x (iterSY P1 P2 x0 (o.k + 1)).1.q ∧
+    o.warned = QGen.C05.warns o.k maxIter := by
+  refine ⟨rfl, (dyk_run_returns_min eps P1 P2 maxIter x0 o h).1, ?_⟩
+  obtain ⟨_, _, _, _, hle, hw⟩ := dyk_history_returned eps P1 P2 maxIter x0 o h
+  unfold QGen.C05.warns
+  cases hwv : o.warned with
+  | true => have := hw.1 hwv; simp; omega
+  | false =>
+    have : ¬ o.k + 1 = maxIter := fun e => by rw [hw.2 e] at hwv; cases hwv
+    simp; omega
+
+section flat
+variable {m n : Nat}
+/-- the POVM equality projection on the flat vector is the metric projection onto `{v | the elements sum to the identity}` -/
+theorem isProj_povm_eq (t : K) (hm : 0 < m) :
+    IsProj (fun v : Vec K (m * n) => Povm.Feas t (unflatten v)) (peqPovm (m := m) (n := n) t) := by
+  intro u
+  have e : unflatten (peqPovm (m := m) (n := n) t u) = Povm.projEq t (unflatten u) := by
+    unfold peqPovm; rw [unflatten_flatten]; rfl
+  refine ⟨by show Povm.Feas t (unflatten (peqPovm t u)); rw [e]; exact povm_projEq_mem t _ hm, fun z hz => ?_⟩
+  rw [ip1_flat, unflatten_sub, unflatten_sub, e]
+  exact le_of_eq (povm_projEq_orth t _ _ hm hz)
+
+/-- the m-process equality projection on the flat vector is the metric projection onto `{v | Σ_x first rows = e0}` -/
+theorem isProj_mprocess_eq (hm : 0 < m) :
+    IsProj (fun v : Vec K (m * (n * n)) => MProcess.Feas (tenOfVec v)) (peqMProcess (m := m) (n := n)) := by
+  intro u
+  have e : tenOfVec (peqMProcess (m := m) (n := n) u) = MProcess.projEq (tenOfVec u) := by
+    unfold peqMProcess; rw [tenOfVec_vecOfTen]; rfl
+  refine ⟨by show MProcess.Feas (tenOfVec (peqMProcess u)); rw [e]; exact mprocess_projEq_mem _ hm, fun z hz => ?_⟩
+  rw [ip1_ten, tenOfVec_sub, tenOfVec_sub, e]
+  exact le_of_eq (mprocess_projEq_orth _ _ hm hz)
+end flat
 
 theorem isProj_univ : IsProj (fun _ : Vec K N => True) id := by
   intro u; refine ⟨trivial, fun z _ => ?_⟩
